@@ -19,7 +19,7 @@ META = dict(
                 'Controls (Label, Badge, Tooltip, LabelGroup, ProgressBar, TabControl) are hnode builders with the same well-formedness / no-injection theorems; the JavaScript literal written by Html.escape(s, javascript_str=True) '
                 'is lexed back as exactly s and ends at its closing quote (update scripts for textContent / innerHTML). '
                 'Tie: the model is run on every generated (options, value) and its output compared, character by character, with pg.to_html_str(value, **options) both with content_only=True and as the full document; '
-                'the CSS constants are regenerated from tree_view.py each run and the proofs re-checked; '
+                'the CSS constants are regenerated from tree_view.py each run and the proofs re-checked; histories in one process (render / update controls / render again) and document histories (serialise, write / + / copy, serialise again; oracle after every step, grown documents compared with multi_document); '
                 'the Python strict tokenizer used by the oracle is compared with the proved Coq parser on real, broken and mutated outputs; html.escape is compared with the model escape.'),
     level_note=('Trusted: Coq kernel; translator harness/translators/html_styles.py; extraction (ExtrOcamlBasic) cross-checked against vm_compute; the harness conversion of a Python value to the model value, which calls '
                 'utils.format / repr / camel_to_snake to fill the strings the model treats as arbitrary (fmt, rep, cname). Modelled, not verified: those three functions (arbitrary strings in every theorem). '
@@ -1192,6 +1192,158 @@ def run_sequence(spec):
   return hits, steps
 
 # ------------------------------------------------------------------------------------------------
+# document histories: one Html object that is rendered, serialised, extended (write / + / copy), styled and serialised again.
+# The reference is the concatenation model: content = the pieces in writing order, head = the shared parts in first-occurrence
+# order (Model/HtmlDoc.v multi_document when every piece is a rendered value); checked after EVERY step on EVERY live document.
+import inspect as _inspect
+
+def expected_full(styles, scripts, content):
+  """Html.to_str as views/html/base.py assembles it."""
+  st = '<style>\n%s\n</style>' % '\n'.join(_inspect.cleandoc(x) for x in styles) if styles else ''
+  sc = '<script>\n%s\n</script>' % '\n'.join(_inspect.cleandoc(x) for x in scripts) if scripts else ''
+  head = '\n'.join(x for x in ['<head>', st, sc, '</head>'] if x)
+  return '\n'.join(x for x in ['<html>', head, '<body>\n%s\n</body>' % content, '</html>'] if x)
+
+class DocState:
+  def __init__(self, doc, pieces, styles, scripts, values, modelled):
+    self.doc, self.pieces, self.styles, self.scripts, self.values, self.modelled = doc, list(pieces), list(styles), list(scripts), list(values), (None if modelled is None else list(modelled))
+  def clone_with(self, doc):
+    return DocState(doc, self.pieces, self.styles, self.scripts, self.values, self.modelled)
+  def absorb(self, piece_content, styles, scripts, value_entry=None, model_entry=None):
+    self.pieces.append(piece_content)
+    for x in styles:
+      if x not in self.styles: self.styles.append(x)
+    for x in scripts:
+      if x not in self.scripts: self.scripts.append(x)
+    if value_entry is not None: self.values.append(value_entry)
+    if model_entry is None: self.modelled = None
+    elif self.modelled is not None: self.modelled.append(model_entry)
+
+DOC_TAGS = VOCAB_TAGS | {'html', 'head', 'body'}
+DOC_STEPS = ['to_str', 'to_str', 'to_str_content', 'str', 'hash', 'repr_html', 'format', 'write-rendered', 'write-rendered', 'write-rendered', 'write-str', 'write-html',
+             'add', 'radd', 'copy', 'from_value', 'add_style', 'add_script']
+
+def doc_hits(st, step):
+  """The oracle on one live document."""
+  hits = []
+  tag = 'C20/document-history/%s'
+  try:
+    body = st.doc.to_str(content_only=True)
+    full = st.doc.to_str()
+  except Exception as e:
+    return [(tag % ('raises/' + type(e).__name__), 'serialising the document raises %s after %s' % (type(e).__name__, step))]
+  want = ''.join(st.pieces)
+  if body != want:
+    hits.append((tag % 'content-differs', 'after %s: to_str(content_only=True) is not the concatenation of what was written (%d vs %d chars)' % (step, len(body), len(want))))
+  m = re.fullmatch(r'<html>\n<head>\n(.*)</head>\n<body>\n(.*)\n</body>\n</html>', full, re.S)
+  if not m:
+    hits.append((tag % 'wrapper', 'after %s: the full document is not <html><head>..</head><body>..</body></html>' % step))
+  elif m.group(2) != body:
+    hits.append((tag % 'body-differs-from-content', 'after %s: the <body> of to_str() (%d chars) differs from to_str(content_only=True) (%d chars): what was appended after a serialisation is missing' % (step, len(m.group(2)), len(body))))
+  if full != expected_full(st.styles, st.scripts, want) and not hits:
+    hits.append((tag % 'document-differs', 'after %s: the full document differs from head(shared parts in first-occurrence order) + body(concatenated content)' % step))
+  for x in st.styles + st.scripts:
+    if full.count(_inspect.cleandoc(x)) != 1:
+      hits.append((tag % 'shared-part-count', 'after %s: a style / script block occurs %d times in the document' % (step, full.count(_inspect.cleandoc(x))))); break
+  if str(st.doc) != full or st.doc._repr_html_() != full:
+    hits.append((tag % 'str-differs', 'after %s: str(doc) / _repr_html_() differ from to_str()' % step))
+  try:
+    tree = strict_parse(full)
+  except Reject as r:
+    hits.append((tag % ('malformed/' + r.why), 'after %s: the full document is not well formed: %s ...%s...' % (step, r, full[max(0, r.pos - 60):r.pos + 30])))
+    return hits
+  n = 0
+  for t in walk(tree):
+    if t[0] == 1: n += len(SENT_RE.findall(t[1]))
+    elif t[0] == 3: n += 0
+    else:
+      n += sum(len(SENT_RE.findall(v)) for _, v in t[3])
+      if t[1] not in DOC_TAGS or any(a not in VOCAB_ATTRS for a, _ in t[3]):
+        hits.append((tag % ('vocabulary/%s' % (t[1] if not SENT_RE.search(t[1]) else 'data')), 'after %s: element / attribute introduced by data' % step))
+  if n != len(SENT_RE.findall(full)):
+    hits.append((tag % 'sentinel-outside-text', 'after %s: a datum occurs outside text / quoted attribute value position' % step))
+  texts = [t[1] for t in walk(tree) if t[0] == 1]
+  for value, kw, snapshot in st.values:
+    if snap(value) != snapshot:
+      hits.append((tag % 'value-modified', 'after %s: a rendered value was modified' % step)); break
+    missing = [(w, x) for w, x in (expected_visible(value, kw) or []) if x and not any(x == y if w == 'key' else x in y for y in texts)]
+    if missing:
+      hits.append((tag % ('missing/' + missing[0][0]), 'after %s: %s %r of a value rendered into the document is not present as text' % (step, missing[0][0], missing[0][1]))); break
+  return hits
+
+_DOC_ROWS = []
+def doc_rows():
+  if not _DOC_ROWS:
+    _DOC_ROWS.extend(pairwise(OPTION_SPACE, random.Random(12345)))
+  return _DOC_ROWS
+
+def run_doc_history(spec, rows=None):
+  """spec: dict(kind='doc-history', seed, steps?).  Returns (hits, steps, model cases [(tr, impl_out)])."""
+  p = pg()
+  Html = p.Html
+  rows = doc_rows()
+  r = random.Random(spec['seed'])
+  data = Data(random.Random(spec['seed'] + 7), hostile=True)
+  def rendered():
+    value = gen_value(r, data, r.choice([1, 2, 2]))
+    while not child_items(value) and r.random() < 0.8:
+      value = gen_value(r, data, 2)
+    sym = dict(DEFAULTS); sym.update(r.choice(rows)) if r.random() < 0.6 else None
+    sym['root_path'] = None
+    kw = resolve_options(sym, value, r, data)
+    h = p.to_html(value, **kw)
+    with view_flags(kw.get('extra_flags')):
+      me = [model_options(kw, value), conv(value, [])]
+    return h, (value, kw, snap(value)), me
+  h, ve, me = rendered()
+  live = [DocState(h, [h.content], list(h.styles.parts), list(h.scripts.parts), [ve], [me])]
+  hits = []
+  steps = spec.get('steps') or [r.choice(DOC_STEPS) for _ in range(r.randint(5, 10))]
+  def verify(step):
+    for st in live:
+      for sig, what in doc_hits(st, step):
+        hits.append((sig, what))
+  verify('render')
+  for i, step in enumerate(steps):
+    st = r.choice(live)
+    d = st.doc
+    if step == 'to_str': d.to_str()
+    elif step == 'to_str_content': d.to_str(content_only=True)
+    elif step == 'str': str(d)
+    elif step == 'hash': hash(d)
+    elif step == 'repr_html': d._repr_html_()
+    elif step == 'format': d.format(compact=True); repr(d)
+    elif step == 'write-rendered':
+      h, ve, me = rendered(); hc, hs, hj = h.content, list(h.styles.parts), list(h.scripts.parts)
+      d.write(h); st.absorb(hc, hs, hj, ve, me)
+    elif step == 'write-str':
+      d.write('<div class="sep"></div>', None, lambda: '<span class="note"></span>'); st.absorb('<div class="sep"></div><span class="note"></span>', [], [], None, None)
+    elif step == 'write-html':
+      x = Html('<span class="note">note</span>').add_style('.note { color: red; }', '.other { margin: 0 }').add_script('function noted() { return 1; }')
+      d.write(x); st.absorb('<span class="note">note</span>', ['.note { color: red; }', '.other { margin: 0 }'], ['function noted() { return 1; }'], None, None)
+    elif step == 'add':
+      h, ve, me = rendered(); hc, hs, hj = h.content, list(h.styles.parts), list(h.scripts.parts)
+      n_ = st.clone_with(d + h); n_.absorb(hc, hs, hj, ve, me); live.append(n_)
+    elif step == 'radd':
+      n_ = DocState('<div class="pre"></div>' + d, ['<div class="pre"></div>'] + st.pieces, st.styles, st.scripts, st.values, None); live.append(n_)
+    elif step == 'copy':
+      live.append(st.clone_with(Html.from_value(d, copy=True)))
+    elif step == 'from_value':
+      if Html.from_value(d) is not d:
+        hits.append(('C20/document-history/from-value-copies', 'Html.from_value(html) without copy returns another object'))
+    elif step == 'add_style':
+      d.add_style('.extra-%d { color: blue; }' % (i % 2)); st.absorb('', ['.extra-%d { color: blue; }' % (i % 2)], [], None, None)
+    elif step == 'add_script':
+      d.add_script('function extra() { return 2; }'); st.absorb('', [], ['function extra() { return 2; }'], None, None)
+    live[:] = live[-4:] if len(live) > 4 else live
+    verify('step %d (%s)' % (i, step))
+  cases = []
+  for st in live:
+    if st.modelled:
+      cases.append(([11, [list(x) for x in st.modelled]], [11, trlib.enc(st.doc.to_str())]))
+  return hits, steps, cases
+
+# ------------------------------------------------------------------------------------------------
 LITERALS = [
     dict(kind='literal', value={'k<i>ZQ1X': 1}, kw={}),
     dict(kind='literal', value={'k<i>ZQ1X': 1}, kw={'key_style': 'label'}),
@@ -1254,6 +1406,22 @@ def run(ctx):
   specs = list(LITERALS)
   rows = pairwise(OPTION_SPACE, random.Random(rng.getrandbits(32)))
   ctx.extra['pairwise_rows'] = len(rows)
+  # ---- document histories (render, serialise, extend, serialise again ...), oracle after every step on every live document
+  doc_cases = []
+  ndoc = ndocsteps = 0
+  forced_doc = [['to_str', 'write-rendered', 'to_str', 'write-str', 'write-rendered'], ['str', 'add', 'copy', 'write-rendered', 'hash', 'write-html'],
+                ['repr_html', 'radd', 'add_style', 'write-rendered', 'add_script', 'to_str_content', 'add']]
+  for k in range(ctx.scale(30, 400)):
+    if budget(0.4) and k >= 3:
+      skipped['document_histories'] = skipped.get('document_histories', 0) + 1; continue
+    spec = dict(kind='doc-history', seed=rng.getrandbits(32), steps=forced_doc[k] if k < len(forced_doc) else None)
+    dh, dsteps, dcases = run_doc_history(spec)
+    for sig, what in dh:
+      ctx.hit(sig, what, dict(spec=dict(spec, steps=dsteps)))
+    doc_cases += dcases; ndoc += 1; ndocsteps += len(dsteps)
+    for st_ in dsteps: ctx.hist('document_history_steps', st_)
+    ctx.count(json.dumps(spec, sort_keys=True), nontrivial=True, kind='document-history')
+  ctx.extra['document_histories'] = dict(histories=ndoc, steps=ndocsteps, documents_compared_with_multi_document=len(doc_cases))
   nvalues = ctx.scale(24, 160)
   for vi in range(nvalues):
     sseed = rng.getrandbits(32)
@@ -1390,6 +1558,8 @@ def run(ctx):
     ctx.hist('tokenizer_docs', 'accepted' if t is not None else 'rejected')
     ctx.count(('doc', d), nontrivial=True, kind='tokenizer-vs-coq-parser')
 
+  for tr_, out_ in doc_cases:
+    trs.append(tr_); impl_outs.append(out_); descr.append(dict(what='grown document vs multi_document'))
   # ---- arbitrary trees through nested Html.element calls against Model render / names_ok / reads_back
   ntrees = 0
   for _ in range(ctx.scale(400, 6000)):
@@ -1513,6 +1683,11 @@ def replay(ctx, rp):
       return not escape_purity_hits(['a<b', '"q"', "x'&y"], random.Random(1), rounds=3)
     js = Html.escape(s, javascript_str=True); h = Html.escape(s); js2 = Html.escape(s, javascript_str=True)
     return html_lib.unescape(html_lib.escape(s)) == s and h == html_lib.escape(s) and js == js2 == js_escape_ref(s)
+  if spec.get('kind') == 'doc-history':
+    hits, _, _ = run_doc_history(spec)
+    for h in hits[:5]:
+      print('  still fails:', h)
+    return not hits
   if spec.get('kind') == 'sequence':
     hits, _ = run_sequence(spec)
     for h in hits:
